@@ -443,10 +443,40 @@ func c02Worker(w *W) {
 					w.Violate("C02:error-not-reported:"+c.ErrClass, fmt.Sprintf("Refresh accepted a configuration with error class %q (loggers %+v root=%v rootTags=%q)", c.ErrClass, c.Loggers, c.Root, c.RootTags), cs)
 					okAll = false
 				}
+				idsE := map[string]string{}
+				if err != nil {
+					// "an error instead of choosing": nothing has been chosen. Until Destroy every registered tag is still served by
+					// the built-in console logger, not by a logger of the configuration that was just refused
+					for k, t := range all {
+						if k%3 != rep {
+							continue
+						}
+						id := fmt.Sprintf("id-%dx%dx%de-%d", w.Spec.Shard, ci, rep, k)
+						idsE[id] = t
+						log.Info(ctx, tags[t], log.Msg(id))
+					}
+				}
 				log.Destroy()
 				if err == nil {
 					break
 				}
+				seenE := map[string][]string{}
+				for _, it := range rec.take() {
+					id := idOf(it.JSON)
+					seenE[id] = append(seenE[id], it.Sink)
+				}
+				for _, ch := range sink.take() {
+					id := idOf(ch)
+					seenE[id] = append(seenE[id], "console")
+				}
+				for id, t := range idsE {
+					if got := seenE[id]; len(got) != 1 || got[0] != "console" {
+						okAll = false
+						w.Violate("C02:chosen-despite-error:"+c.ErrClass, fmt.Sprintf("Refresh refused the configuration (%s) - and yet tag %q, logged before Destroy, was served by %v instead of the built-in console logger", c.ErrClass, t, got), cs)
+						break
+					}
+				}
+				w.Count("tag_routings_checked_after_a_refused_refresh", int64(len(idsE)))
 				continue
 			}
 			if err != nil {
